@@ -1,5 +1,11 @@
 package scipipe
 
+import (
+	"io"
+	"io/ioutil"
+	"os"
+)
+
 // Sink is a simple component that just receives IPs on its In-port without
 // doing anything with them. It is used to drive pipelines of processes
 type Sink struct {
@@ -29,6 +35,16 @@ func (p *Sink) FromParam(outParamPort *OutParamPort) {
 	p.paramIn().From(outParamPort)
 }
 
+// drainFifo reads and discards everything written to the FIFO of a streaming IP
+func drainFifo(ip *FileIP) {
+	fifo, err := os.Open(ip.FifoPath())
+	if err != nil {
+		return
+	}
+	io.Copy(ioutil.Discard, fifo)
+	fifo.Close()
+}
+
 // Run runs the Sink process
 func (p *Sink) Run() {
 	merged := make(chan int)
@@ -37,6 +53,12 @@ func (p *Sink) Run() {
 			for ip := range p.in().Chan {
 				verifPoint("port.recv", verifPortName(p, "sink_in"), ip.Path())
 				Debug.Printf("Got file in sink: %s\n", ip.Path())
+				if ip.doStream {
+					// Nobody else consumes this stream, so read and discard
+					// what is written to its FIFO. Otherwise the task writing
+					// to it would block forever waiting for a reader
+					go drainFifo(ip)
+				}
 			}
 			verifPoint("port.recv_closed", verifPortName(p, "sink_in"))
 			merged <- 1
